@@ -132,7 +132,9 @@ fn main() {
         }
     }
     // quiet panics: they are outcomes, printed as PANIC
-    std::panic::set_hook(Box::new(|_| {}));
+    if std::env::var("MPDVERIF_LOUD").is_err() {
+        std::panic::set_hook(Box::new(|_| {}));
+    }
 
     let mut ops = replay;
     if !only_replay {
